@@ -5,9 +5,13 @@ use serde_json::{json, Value};
 
 const RULE: &str = "generated projects (1-6 rule groups with names, 0-4 rules, 0-3 description lines, random indentation, blank lines between rules, LF or CRLF; 1-30 word lines with trailing comments, comment-only and blank lines; optional alias file with both sections) serialised per doc-cli.md into a fresh directory: (1) `asca run -r -w [-l] -o` must write exactly asca::run(model) joined by newlines and print the same `before => after` pairs; (2) `asca run -j` on the model as JSON must write the same; (3) `asca conv asca` must produce the model as JSON; (4) on round-trip-safe projects `asca conv json` (explicit -w/-r/-a paths, and default paths) followed by `asca conv asca` must reproduce the JSON. Every invocation runs with stdin closed, a step budget and a watchdog. Non-trivial = the run changed at least one word and wrote a file; distinct = distinct projects.";
 
+thread_local! { static REGEN: std::cell::Cell<Option<(u64, u64)>> = const { std::cell::Cell::new(None) }; }
+
 fn fail(rep: &mut Report, sig: &str, p: &Project, files: &Value, detail: Value) {
     let pj = p.json();
-    rep.violation(sig.to_string(), || json!({"case": {"project": pj, "files": files}, "detail": detail}));
+    // (seed, case index) regenerates the project *and* every serialisation / invocation choice made for it
+    let regen = REGEN.with(|c| c.get()).map(|(s, i)| json!({"seed": s, "index": i})).unwrap_or(Value::Null);
+    rep.violation(sig.to_string(), || json!({"case": {"project": pj, "files": files, "regen": regen}, "detail": detail}));
 }
 
 pub fn judge(rep: &mut Report, r: &mut Rng, dir: &std::path::Path, p: &Project, safe: bool) {
@@ -19,6 +23,8 @@ pub fn judge(rep: &mut Report, r: &mut Rng, dir: &std::path::Path, p: &Project, 
     if has_alias { std::fs::write(dir.join("a.alias"), &al).ok(); }
     let words = p.word_list();
     let expected = run_pub(&p.groups, &words, &p.into, &p.from);
+    // a panic or an exhausted step budget inside the library is C02's finding; the binary can only do the same
+    if let Err(Applied::Abort(sig)) = &expected { let pj = p.json(); rep.abort(sig.clone(), || json!({"project": pj})); return }
     // (1) run
     let mut args = vec!["run", "-r", "r.rsca", "-w", "w.wsca", "-o", "out.wsca"]; if has_alias { args.extend(["-l", "a.alias"]); }
     let ran = run_asca(dir, &args);
@@ -68,28 +74,46 @@ pub fn judge(rep: &mut Report, r: &mut Rng, dir: &std::path::Path, p: &Project, 
     }
 }
 
+const STREAM: u64 = 0x19;
+
+fn one(r: &mut Rng, rep: &mut Report, i: u64, shard: usize, seed: u64) {
+    REGEN.with(|c| c.set(Some((seed, i))));
+    let safe = r.chance(1, 2);
+    let p = rand_project(r, safe);
+    let dir = scratch("c19", shard, i);
+    judge(rep, r, &dir, &p, safe);
+    cleanup(&dir);
+    REGEN.with(|c| c.set(None));
+}
+
 pub fn explore(ctx: &Ctx, shard: usize, n: usize) -> Report {
-    let rep = drive::cases(ctx, shard, n, RULE, 0x19, 480, 12000, |r, rep, i| {
-        let safe = r.chance(1, 2);
-        let p = rand_project(r, safe);
-        let dir = scratch("c19", shard, i);
-        judge(rep, r, &dir, &p, safe);
-        cleanup(&dir);
-    });
+    let seed = ctx.seed;
+    let rep = drive::cases(ctx, shard, n, RULE, STREAM, 480, 12000, |r, rep, i| one(r, rep, i, shard, seed));
     cleanup_root("c19", shard);
     rep
 }
 
 pub fn replay(_ctx: &Ctx, v: &Value) -> Report {
-    // replays the exact files of the witness
+    // a witness found by exploration is regenerated from (seed, case index), choices included; a hand-written one (known
+    // findings) gives the project model, which is serialised and driven with eight different streams of choices
     let mut rep = Report::new(RULE);
+    if let (Some(seed), Some(i)) = (v["regen"]["seed"].as_u64(), v["regen"]["index"].as_u64()) {
+        let mut r = Rng::new(seed, (STREAM << 40) ^ i);
+        one(&mut r, &mut rep, i, 9000, seed);
+        cleanup_root("c19", 9000);
+        return rep;
+    }
     let pj = &v["project"];
     let groups: Vec<asca::RuleGroup> = pj["rules"].as_array().map(|a| a.iter().map(|g| asca::RuleGroup::from(jstr(g, "name"), jstrs(g, "rule"), jstr(g, "description"))).collect()).unwrap_or_default();
     let p = Project { groups, words: jstrs(pj, "words").into_iter().map(|w| (w, String::new())).collect(), into: jstrs(pj, "into"), from: jstrs(pj, "from") };
-    let dir = scratch("c19r", 0, 0);
-    let mut r = Rng::new(1, 1);
     let safe = p.words.last().map(|w| !w.0.is_empty()).unwrap_or(false) && p.words.iter().all(|w| !w.0.is_empty());
-    judge(&mut rep, &mut r, &dir, &p, safe);
-    cleanup(&dir); cleanup_root("c19r", 0);
+    for k in 0..8u64 {
+        let dir = scratch("c19r", 0, k);
+        let mut r = Rng::new(1, 1 + k);
+        judge(&mut rep, &mut r, &dir, &p, safe);
+        cleanup(&dir);
+        if !rep.violations.is_empty() { break }
+    }
+    cleanup_root("c19r", 0);
     rep
 }
